@@ -178,16 +178,20 @@ def same_meaning(first: Any, second: Any, salt: str = "") -> Tuple[bool, str]:
     rng = random.Random(int(hashlib.sha1((ref.render(first) + "|" + ref.render(second) + salt).encode())
                             .hexdigest()[:12], 16))
     worlds = []
-    if len(profiles) <= 7:
+    size = 1
+    for profile in profiles:
+        size *= len(states(profile))
+    if size <= 4096:
+        # every single-gene world
         for picks in itertools.product(*[states(p) for p in profiles]):
             hits = [[[p, s] for p, scores in zip(profiles, picks) for s in scores], [], []]
             worlds.append((hits, _NEARS[0]))
-    for _ in range(400):
+    for number in range(600):
         hits = []
-        for _gene in range(3):
+        for gene in range(3):
             gene_hits = []
             for profile in profiles:
-                if rng.random() < 0.4:
+                if rng.random() < 0.4 and (gene == 0 or number % 3):
                     for score in rng.choice(states(profile)[1:]):
                         gene_hits.append([profile, score])
             hits.append(gene_hits)
@@ -644,6 +648,15 @@ def base_texts() -> List[List[str]]:
         ["RULE r1 CATEGORY PKS CUTOFF 5 NEIGHBOURHOOD 7 CONDITIONS a RULE r2 CATEGORY PKS SUPERIORS r1 CUTOFF 5 "
          "NEIGHBOURHOOD 7 CONDITIONS b RULE r3 CATEGORY PKS SUPERIORS r2 CUTOFF 5 NEIGHBOURHOOD 7 "
          "CONDITIONS c or cds(d and (a or b))"],
+        ["DEFINE ALPHA AS a or b DEFINE L1 AS (ALPHA and c) RULE r1 CATEGORY NRPS DESCRIPTION ALPHA and (not) cds e.g. "
+         "CUTOFF 12 NEIGHBOURHOOD 8 CONDITIONS L1 or d and ALPHA EXTENDERS cds(d and not e)"],
+        ["RULE r1 CATEGORY other EXAMPLE NCBI CP006259.2 5-9000 EXAMPLE NCBI NC_003888.1 1-2 some name RELATED a "
+         "CUTOFF 20 NEIGHBOURHOOD 30 CONDITIONS not (a or (b and not (c or d))) and e and minscore(PKS_AT, 150)"],
+        ["DEFINE ALPHA AS (a or b)", "RULE r1 CATEGORY PKS CUTOFF 5 NEIGHBOURHOOD 7 CONDITIONS not ALPHA and c",
+         "RULE r2 CATEGORY PKS SUPERIORS r1 CUTOFF 5 NEIGHBOURHOOD 7 CONDITIONS minimum(3, [a, b]) or "
+         "not cds(ALPHA and c) and AMP-binding"],
+        ["RULE r1 CATEGORY PKS CUTOFF 5 NEIGHBOURHOOD 7 CONDITIONS (a or b) and (c or d) or not (a and e) and p450 "
+         "RULE r2 CATEGORY NRPS CUTOFF 1 NEIGHBOURHOOD 1 CONDITIONS cds(a or b and c)"],
     ]
 
 
@@ -654,6 +667,17 @@ def regeneration_family() -> List[Dict[str, Any]]:
     for kb in (1, 2, 3, 5, 7, 10, 45):
         for mult in ([1.5, 1.0], [1.0, 0.5], [0.25, 1.5], [0.5, 0.25], [2.0, 1.0]):
             out.append({"fam": "wf", "texts": [wrap("a and not b", cutoff=kb, neigh=kb + 1)], "mult": mult})
+    def sup(name: str, superiors: str = "") -> str:
+        return wrap("a", name=name, extra=f"SUPERIORS {superiors} " if superiors else "")
+    chains = [
+        [" ".join([sup("r1"), sup("r2", "r1"), sup("r3", "r2"), sup("r4", "r3"), sup("r5", "r4")])],
+        [" ".join([sup("r1"), sup("r2", "r1")]), sup("r3", "r2"), " ".join([sup("r4", "r3"), sup("r5", "r4, r1")])],
+        [" ".join([sup("r1"), sup("r2", "r1"), sup("r3", "r1"), sup("r4", "r2, r3"), sup("r5", "r4")])],
+        [" ".join([sup("r1"), sup("r2"), sup("r3", "r2, r1"), sup("r4", "r3"), sup("r5", "r1")])],
+        [sup("r1"), sup("r2", "r1"), sup("r3", "r2"), sup("r4", "r3")],
+    ]
+    for texts in chains:
+        out.append({"fam": "wf", "texts": texts, "mult": [1.0, 1.0]})
     for cond in ("b and not (not a)", "b or not (not minimum(1, [a]))", "a and not (not cds(b and c))",
                  "a and not (not (b or c))", "a and not ((not b))", "a and (not b)", "a and not (b)", "((a or b)) and c",
                  "(a)", "((a))", "not (not a) and b", "a and not (not minscore(b, 5))", "(cds(a and b))",
@@ -755,7 +779,18 @@ def shards(tier: str, seed: int) -> List[Dict[str, Any]]:
     return out
 
 
-def _report(run: Any, verdicts: Verdicts, case: Dict[str, Any], nontrivial: bool = True) -> None:
+_INTERESTING = {"and", "or", "not", "cds", "minimum", "minscore", "(", "DEFINE", "SUPERIORS", "EXTENDERS"}
+
+
+def _nontrivial(case: Dict[str, Any]) -> bool:
+    if case.get("fam") in ("cor", "shipped"):
+        return True
+    return any(token in _INTERESTING for text in case.get("texts", []) for token in ref.tokenise(text))
+
+
+def _report(run: Any, verdicts: Verdicts, case: Dict[str, Any], nontrivial: Optional[bool] = None) -> None:
+    if nontrivial is None:
+        nontrivial = _nontrivial(case)
     for clause, (ok, detail) in verdicts.items():
         if clause == ROUNDTRIP:
             known = roundtrip_input_class(case)
@@ -772,7 +807,7 @@ def run_shard(shard: Dict[str, Any], run: Any) -> None:
             mult = [MULTS[position % 5], MULTS[(position // 5) % 5]]
             case = {"fam": "wf", "texts": [wrap(texts[position], cutoff=4 * (1 + position % 40),
                                                 neigh=4 * (2 + position % 37))], "mult": mult}
-            _report(run, judge(case["texts"], mult), case, nontrivial=" " in texts[position])
+            _report(run, judge(case["texts"], mult), case)
     elif kind == "c01rules":
         from bounded import C01
         texts = C01.rule_texts("quick")
@@ -812,10 +847,15 @@ def _judge_ill(case: Dict[str, Any]) -> Verdicts:
 
 def _run_corruptions(shard: Dict[str, Any], run: Any) -> None:
     texts = base_texts()[shard["base"]]
-    prefix_texts, last = texts[:-1], texts[-1]
-    tokens = ref.tokenise(last)
     base_case = {"fam": "wf", "texts": texts, "mult": [1.0, 1.0]}
     _report(run, judge(texts, [1.0, 1.0]), base_case)
+    _corrupt(texts, run)
+
+
+def _corrupt(texts: Sequence[str], run: Any) -> None:
+    """every single-token deletion, duplication and pool substitution of the LAST text"""
+    prefix_texts, last = list(texts[:-1]), texts[-1]
+    tokens = ref.tokenise(last)
     variants: List[Tuple[str, List[str]]] = []
     for index in range(len(tokens)):
         variants.append((f"del{index}", tokens[:index] + tokens[index + 1:]))
@@ -870,6 +910,8 @@ def _run_files(shard: Dict[str, Any], run: Any) -> None:
         if made % 10 == 0:
             case = {"fam": "create_rules", "texts": texts, "mult": mult}
             _report(run, judge_create_rules(texts, mult), case)
+        if run.tier == "thorough" and made % 150 == 0 and len(ref.tokenise(texts[-1])) <= 150:
+            _corrupt(texts, run)
 
 
 def judge_create_rules(texts: Sequence[str], mult: Sequence[float]) -> Verdicts:
